@@ -85,12 +85,8 @@ def range_tables(rows8, tier, rng, rep, stats):
         form, s, a = r["form"], r["step"], r["start"]
         for i, b in enumerate(r["stops"]):
             n, m, ev = r["n"][i], r["m"][i], r["ev"][i]
-            # S (TLC) vs its transcription
-            ln, lm, lev = L.model_row(ty_t, form, a, b, s, L.CAP8)
-            if (ln, lm, lev) != (n, m, ev):
-                rep.spec_drift("RangeLoop.Run vs lib_loops.model_row", {"row": [tag, form, s, a, b], "tlc": [n, m, ev], "lib": [ln, lm, lev]})
             seq = L.ref_seq(form, a, b, s)
-            om, oe = L.model_row(ty_o, form, a, b, s, L.CAP8)[1:] if ev or abs(s) > 1 or form == "rev" else (m, ev)
+            om, oe = L.model_row(ty_o, form, a, b, s, L.CAP8)[1:]
             for bk, ck in BODIES:
                 want = list(L.apply_body(seq, bk, ck))
                 for bounds, ty, mm, ee in (("t", ty_t, m, ev), ("o", ty_o, om, oe)):
@@ -302,7 +298,9 @@ def run(tier, seed):
     ex = concurrent.futures.ThreadPoolExecutor(max_workers=8)
     futs = {}
     for cfg in range_cfgs:
-        futs[cfg] = ex.submit(core.tlc, "RangeLoop", cfg=cfg, workers=nw, timeout=2400 if thorough else 900, deadlock=False)
+        # Walk() recurses once per loop iteration (up to 256 deep for the 8-bit types): larger thread stacks
+        futs[cfg] = ex.submit(core.tlc, "RangeLoop", cfg=cfg, workers=nw, timeout=2400 if thorough else 900, deadlock=False,
+                              env={"JAVA_TOOL_OPTIONS": "-Xss64m"})
         time.sleep(0.3)
     futs[iter_cfg] = ex.submit(core.tlc, "IterMutation", cfg=iter_cfg, workers=nw, timeout=2400 if thorough else 900,
                                deadlock=False, coverage=True)
